@@ -143,6 +143,16 @@ def _gen_doc(rng, tier, want_fault=None):
         if fails:
             doc["fault"] = {"kind": "exec-own-line", "target": "px", "cmd": "Passthrough"}
         doc["libs"] = True
+    elif r < 0.27 and not fault:
+        # a reference cycle fed by a command that nothing else uses: the error belongs to a command of the cycle
+        reads = [c["name"] for c in model["cmds"] if c["cmd"] == "EEMSRead"]
+        if reads:
+            model["cmds"].extend([{"name": "cyF", "cmd": "Copy", "args": {"InFieldName": rng.choice(reads)}},
+                                  {"name": "cyA", "cmd": "AMinusB", "args": {"A": "cyF", "B": "cyB"}},
+                                  {"name": "cyB", "cmd": "Copy", "args": {"InFieldName": "cyA"}}])
+            doc["order"] = list(range(len(model["cmds"])))
+            rng.shuffle(doc["order"])
+            doc["fault"] = {"kind": "cycle", "target": "cyA", "members": ["cyA", "cyB"], "cmd": "AMinusB"}
     elif fault and fault["kind"] in ("unknown-command", "missing-param", "duplicate-result") and rng.random() < 0.35:
         # the offending command is written in EEMS 2.0 form (no result name; NewFieldName gives it); files in that
         # dialect cannot carry OutFileName arguments, so the sinks are left out
@@ -258,7 +268,11 @@ def doc_text(doc):
     fault = doc.get("fault")
     info = {}
     if fault:
-        if fault["kind"] in ("exec-baddata", "exec-foreign-lineno", "exec-own-line"):
+        if fault["kind"] == "cycle":
+            node = next((n for n in nodes if n["name"] == fault["target"]), None)
+            info = {"node": node, "line_of": "cycle", "members": list(fault["members"])} if node is not None else \
+                {"inapplicable": True}
+        elif fault["kind"] in ("exec-baddata", "exec-foreign-lineno", "exec-own-line"):
             node = next((n for n in nodes if n["name"] == fault["target"]), None)
             where = {"exec-baddata": "arg:InFieldName", "exec-foreign-lineno": "exec", "exec-own-line": "command"}
             info = {"node": node, "line_of": where[fault["kind"]]} if node is not None else {"inapplicable": True}
@@ -331,6 +345,12 @@ def allowed_lines(doc, ledger, nodes, info):
         return None
     led = ledger[idx]
     where = info.get("line_of", "command")
+    if where == "cycle":
+        lines = set()
+        for n, l in zip(nodes, ledger):
+            if n["name"] in info.get("members", ()):
+                lines |= set(range(l["line"], l["end_line"] + 1))
+        return lines, False, "a command of the cycle, lines %s" % sorted(lines)
     if where == "command":
         return {led["line"]}, False, "command line %d" % led["line"]
     if where == "within":
